@@ -76,7 +76,7 @@ def node_to_dot(
     yield f"{indent}# Node Definitions"
 
     if add_self:
-        if node._parent:
+        if node._parent is not None:
             attr_def = {}
         else:  # __root__ inherits tree name by default
             attr_def = {"label": f"{name}", "shape": "box"}
